@@ -27,6 +27,9 @@ bool sparseWithMoveCount(vf::Rng& r, int wantMoves, GenPos& out);
 
 /** Any of the above, mixed. */
 void anyPosition(vf::Rng& r, GenPos& out);
+/** Random legal placement of one of the material classes for which the evaluator has special endgame knowledge
+ *  (KRPvKR, KQvKP, KBPvK, ...), either colour assignment, either side to move. */
+bool endgameClass(vf::Rng& r, GenPos& out);
 
 /** Fill pos/legalUci/men from a position. */
 void finish(GenPos& g, const Position& p);
